@@ -36,13 +36,18 @@ RULE = ("streams of 1..k valid frames per connection type with sizes straddling 
         "last frame split with nothing arriving after it (tail), the application sending between the reads "
         "(real send()/send_and_receive, HTTP request i sent no later than the read bringing response i), 2-3 live "
         "connection objects of one type with interleaved reads (objects created at first use), and multi-MiB frames "
-        "(1/5/17 MiB; 16 MiB-1 for Companion) with a handful of cuts on the real code only")
+        "(1/5/17 MiB; 16 MiB-1 for Companion) with a handful of cuts on the real code only; and the layer above "
+        "(fake listener / request handler) raising on its k-th call, every k, compared with the one-read stream "
+        "under the same fault (MRP, Companion, data channel, HTTP server)")
 ASSUMPTIONS = [
     "asyncio calls data_received sequentially with non-empty chunks and closes the transport when it raises",
     "ChaCha20-Poly1305 is a parameter of the model: the Lean driver is told the plaintext of each HAP block",
     "streams are valid (every frame well formed and authentic); behaviour after a parse/auth error is C05/C07",
     "multi-MiB frames are checked by the direct oracle only (the Lean driver is not shown those bytes; the theorems "
     "hold for every length, the model/code correspondence is validated up to 64 KiB frames)",
+    "a consumer fault is injected by call index; the pinned code swallows it for MRP, Companion and the HTTP server "
+    "(framing goes on) and lets it escape data_received for the data channel (asyncio then closes the transport: the "
+    "harness stops feeding); EventChannel and HttpConnection call no user code while receiving",
     "sends and other connections are operations that leave the receive state untouched in the model "
     "(C02_sends_irrelevant, C02_connections_independent); the harness checks the real objects behave so",
 ]
@@ -72,6 +77,13 @@ def varint(n):
             return bytes(out)
         out.append((n & 0x7F) | 0x80)
         n >>= 7
+
+
+class ConsumerFault(RuntimeError):
+    """Raised by the fake listener/handler (the layer above the framer) on a chosen message."""
+
+
+CONSUMER_TARGETS = ("mrp", "mrp-enc", "companion", "companion-enc", "data", "server", "server-hap")
 
 
 class Hang(BaseException):
@@ -365,9 +377,10 @@ def data_frame(rng, kind, seqno):
 def build_data(rng, spec):
     keys = (rng.bytes_(32), rng.bytes_(32))
     st = Stream("data", spec, keys)
-    frames, st.deliveries = [], []
+    frames, st.deliveries, st.call_frame = [], [], []
     for i, kind in enumerate(spec["kinds"]):
         wire, desc, pbs, reply = data_frame(rng, kind, 1000 + i)
+        st.call_frame += [i] * len(pbs)        # consumer call (handle_protobuf) -> frame it belongs to
         frames.append(wire)
         st.descs.append(desc)
         st.contents.append(desc)
@@ -444,8 +457,10 @@ def build(seed, path, spec):
 class Session:
     """One fresh real object; `feed(chunk)` = one data_received; returns the observation."""
 
-    def __init__(self, st):
+    def __init__(self, st, fault=None):
         self.st = st
+        self.fault = fault     # index of the consumer call (listener/handler) that raises, or None
+        self.calls = 0
         self.frames = []       # framer-level observation of the current read
         self.up = []           # what reached the layer above (all reads so far)
         self.blocks = 0
@@ -454,6 +469,14 @@ class Session:
         self.send_op = lambda: None
         self.close = lambda: None
         getattr(self, "_init_" + st.target.replace("-", "_"))()
+
+    def consumer_called(self):
+        """The layer above is being handed a message; it fails on call number `fault`."""
+        k = self.calls
+        self.calls += 1
+        if k == self.fault:
+            self.up[-1] = self.up[-1] + ["consumer-raised"]
+            raise ConsumerFault("verif: the layer above fails on its call #%d" % k)
 
     # -- MRP
     def _init_mrp(self, enc=False):
@@ -464,6 +487,7 @@ class Session:
             def message_received(self, parsed, data):
                 sess.frames.append(sig(data))
                 sess.up.append(["msg", int(parsed.type), sig(data)])
+                sess.consumer_called()
 
             def stop(self):
                 pass
@@ -490,6 +514,7 @@ class Session:
             def frame_received(self, frame_type, data):
                 sess.frames.append([frame_type.value, sig(data)])
                 sess.up.append(["frame", frame_type.value, sig(data)])
+                sess.consumer_called()
 
         self.listener = Listener()
         self.obj = CompanionConnection(None, "verif", 0)
@@ -572,6 +597,7 @@ class Session:
         class Listener:
             def handle_protobuf(self, message):
                 sess.up.append(["pb", sig(message.SerializeToString())])
+                sess.consumer_called()
 
             def handle_connection_lost(self, exc):
                 pass
@@ -683,6 +709,7 @@ class Session:
                 key = [request.method, request.path, request.headers.get("CSeq"), sig(body)]
                 sess.frames.append(key)
                 sess.up.append(["request"] + key)
+                sess.consumer_called()
                 return HttpResponse("HTTP", "1.1", 200, "OK", {"CSeq": request.headers.get("CSeq", "-")}, b"")
 
         rest = [lambda: len(self.obj._request_buffer)]
@@ -756,8 +783,9 @@ FRAMER = {"mrp": "mrp", "mrp-enc": "mrp", "companion": "companion", "companion-e
 class Run:
     """One real connection object fed read by read, with the application's sends in between."""
 
-    def __init__(self, st, cuts, sends=None, initial=None):
+    def __init__(self, st, cuts, sends=None, initial=None, fault=None):
         self.st = st
+        self.fault = fault
         self.chunks = [c for c in split_at(st.wire, cuts) if c]
         self.sends = {int(k): v for k, v in (sends or {}).items()}   # read index -> sends just before it
         self.initial = initial
@@ -765,7 +793,7 @@ class Run:
 
     def step(self):
         if self.sess is None:                      # connection objects are created when first needed
-            self.sess = Session(self.st)
+            self.sess = Session(self.st, self.fault)
             n0 = self.initial
             if n0 is None:                         # HTTP client: every request already sent (pipelined)
                 n0 = len(self.st.descs) if self.st.target in ("http", "http-hap") else 0
@@ -788,9 +816,9 @@ class Run:
         return self.trace, self.sess.up
 
 
-def run_real(st, cuts, sends=None, initial=None):
+def run_real(st, cuts, sends=None, initial=None, fault=None):
     """Feed the stream cut at `cuts` (+ the probe as its own read) to a fresh real object."""
-    r = Run(st, cuts, sends, initial)
+    r = Run(st, cuts, sends, initial, fault)
     while not r.done():
         r.step()
     return r.finish()
@@ -833,11 +861,24 @@ def send_schedule(st, cuts, rng):
 
 # --------------------------------------------------------------------------- model side
 
-def read_cuts(st, kind, cuts):
+def read_cuts(st, kind, cuts, extra=None):
     """Cut positions actually used: the probe is its own read except for `whole` and `tail`."""
     if cuts is None:
         return []
-    return list(cuts) if kind == "tail" else list(cuts) + [st.probe_at]
+    tail = kind == "tail" or bool((extra or {}).get("tail"))
+    return list(cuts) if tail else list(cuts) + [st.probe_at]
+
+
+def consumer_calls(st):
+    """How many times a valid stream makes the real object call the layer above."""
+    if st.target not in CONSUMER_TARGETS:
+        return 0
+    return len(st.call_frame) if st.target == "data" else len(st.descs)
+
+
+def fault_frame(st, k):
+    """Frame during whose processing consumer call #k happens."""
+    return st.call_frame[k] if st.target == "data" else k
 
 
 def model_line(st, cuts):
@@ -864,9 +905,28 @@ def parse_model(st, answer):
     return out
 
 
-def compare(st, trace, model):
-    """Model trace vs real trace, read by read.  Returns None or a description."""
-    if len(trace) != len(model):
+def compare(st, trace, model, fault=None):
+    """Model trace vs real trace, read by read.  Returns None or a description.
+    `fault` = consumer call that raises.  MRP, Companion and the HTTP server swallow the
+    consumer's exception and go on (the framer-level trace is unchanged); the data channel
+    lets it escape data_received while processing that frame (asyncio closes the transport):
+    the reads before must agree, the raising read must be the one in which the model
+    delivers that frame, and the frames cut off in it a prefix ending with that frame."""
+    escapes = fault is not None and st.target == "data"
+    if escapes:
+        e = len(trace) - 1
+        if trace[e]["exc"] != "ConsumerFault":
+            return "consumer fault #%d did not escape data_received (impl %s)" % (fault, trace[e]["exc"])
+        if len(trace) > len(model):
+            return "number of reads processed: impl %d model %d" % (len(trace), len(model))
+        k = sum(len(mo["descs"]) for mo in model[:e])
+        got = trace[e]["frames"]
+        want = model[e]["descs"][:len(got)]
+        if k + len(got) - 1 != fault_frame(st, fault) or len(want) != len(got) or want != st.descs[k:k + len(got)] \
+                or got != st.contents[k:k + len(got)]:
+            return "read %d: consumer fault #%d escaped after frames %s, model delivers %s in that read" % (e, fault, got, model[e]["descs"])
+        trace, model = trace[:e], model[:e]
+    elif len(trace) != len(model):
         return "number of reads processed: impl %d model %d" % (len(trace), len(model))
     k = 0
     for i, (ob, mo) in enumerate(zip(trace, model)):
@@ -906,7 +966,7 @@ def make_plan(ctx, n, weight):
         return dict(single=0, double=0, bytewise=ctx.scale(0, 600), random=2, extra=0, pairs=3, blocks=True)
     if weight == "light":      # very long streams: structural positions only
         return dict(single=0, double=0, bytewise=0, random=ctx.scale(6, 40), extra=ctx.scale(6, 40), pairs=ctx.scale(10, 80))
-    return dict(single=ctx.scale(1200, 4096), double=ctx.scale(40, 110), bytewise=4096, random=ctx.scale(20, 150),
+    return dict(single=ctx.scale(800, 4096), double=ctx.scale(40, 110), bytewise=4096, random=ctx.scale(14, 150),
                 extra=ctx.scale(30, 200), pairs=ctx.scale(40, 400))
 
 
@@ -919,7 +979,7 @@ def cut_sets(ctx, st, rng, plan):
     # inside/after it, nothing arrives later to flush a stalled parser
     total = len(st.wire)
     tail = list(range(n + 1, total))
-    if len(tail) > plan.get("tail", 40):
+    if len(tail) > plan.get("tail", ctx.scale(24, 60)):
         keep = set(c for c in near(st, total, 3) if c > n) | set(rng.sample(tail, min(8, len(tail))))
         tail = sorted(keep)
     if plan.get("blocks"):
@@ -1041,12 +1101,24 @@ def prepare(ctx, seed, path, spec):
     # the same segmentations with the application sending between the reads
     srng = rng.fork("sends")
     pool = [c for c in cases if c[1] and c[0] != "tail"]
-    want = ctx.scale(2, 4) if spec["plan"] == "blocks" else ctx.scale(25, 120)
+    want = ctx.scale(2, 4) if spec["plan"] == "blocks" else ctx.scale(12, 120)
     for kind, cuts, _ in (srng.sample(pool, min(want, len(pool))) if pool else []):
         sends, initial = send_schedule(st, cuts, srng)
         cases.append(("sends", cuts, {"sends": {str(k): v for k, v in sorted(sends.items())}, "initial": initial}))
+    # the layer above fails on one message (listener / request handler raises)
+    ncalls = consumer_calls(st)
+    if ncalls:
+        frng = rng.fork("fault")
+        every = [c for c in cases if c[0] not in ("sends",)]
+        ks = list(range(ncalls)) if ncalls <= 6 else sorted(frng.sample(range(ncalls), 6))
+        per_k = ctx.scale(1, 2) if spec["plan"] == "blocks" else ctx.scale(5, 40)
+        for k in ks:
+            cases.append(("fault", None, {"fault": k}))            # reference: one read
+            for kind, cuts, _ in frng.sample(every, min(per_k, len(every))):
+                if cuts is not None:
+                    cases.append(("fault", cuts, {"fault": k, "tail": kind == "tail"}))
     lines = stream_lines(st)
-    lines += [model_line(st, read_cuts(st, kind, cuts)) for kind, cuts, _x in cases]
+    lines += [model_line(st, read_cuts(st, kind, cuts, x)) for kind, cuts, x in cases]
     return st, cases, lines
 
 
@@ -1057,22 +1129,38 @@ def stream_lines(st):
     return lines
 
 
-def evaluate(ctx, path, spec, st, cases, answers):
+def real_runs(st, cases):
+    """Drive the real object through every case of one stream."""
+    out = []
+    for kind, cuts, extra in cases:
+        if HANGS.get(st.target, 0) >= 3:
+            out.append(None)             # the hangs themselves are recorded as failing inputs
+            continue
+        extra = extra or {}
+        out.append(run_real(st, read_cuts(st, kind, cuts, extra), extra.get("sends"), extra.get("initial"),
+                            extra.get("fault")))
+    return out
+
+
+def evaluate(ctx, path, spec, st, cases, answers, reals):
     n = st.probe_at
     head = 2 if st.plains is not None else 1
     if not all(a.startswith("ok ") for a in answers[:head]):
         ctx.disagree({"target": st.target, "spec": _public(spec)}, "n/a", answers[:head], where="driver setup")
         return
     base = None
-    for (kind, cuts, extra), ans in zip(cases, answers[head:]):
+    fault_base = {}
+    for (kind, cuts, extra), ans, real in zip(cases, answers[head:], reals):
         case = {"target": st.target, "spec": _public(spec), "rng_path": list(path), "cuts": cuts,
                 "stream_len": len(st.wire), "probe_at": n, "kind": kind}
         extra = extra or {}
         case.update(extra)
-        if HANGS.get(st.target, 0) >= 3 and ctx.failures:
+        if real is None:
             ctx.note("skipped-after-hang:" + st.target)     # failing inputs already recorded
             continue
-        trace, up = run_real(st, read_cuts(st, kind, cuts), extra.get("sends"), extra.get("initial"))
+        fault = extra.get("fault")
+        trace, up = real
+        whole = cuts is None
         cuts = cuts or []
         where = [st.classify(c) for c in cuts]
         for w in set(where):
@@ -1089,12 +1177,35 @@ def evaluate(ctx, path, spec, st, cases, answers):
         if ans == "bad-op":
             ctx.disagree(case, "n/a", ans, where="driver rejected the line")
         else:
-            diff = compare(st, trace, parse_model(st, ans))
+            diff = compare(st, trace, parse_model(st, ans), fault)
             if diff:
                 ctx.disagree(case, _short(trace), ans[:400], where=diff)
         ctx.validated()
         # direct oracle on the real code
         final = trace[-1]
+        if kind == "fault":
+            exc = next((ob["exc"] for ob in trace if ob["exc"]), None)
+            if whole:
+                fault_base[fault] = (up, exc, final["rest"])
+                continue
+            if fault not in fault_base:
+                continue
+            rup, rexc, rrest = fault_base[fault]
+            what = None
+            if exc != rexc:
+                what = ("consumer-fault:exception-differs", exc, rexc,
+                        "when the layer above fails on its call #%d the split stream ends with %s, the one-read stream with %s"
+                        % (fault, exc or "no exception", rexc or "no exception"))
+            elif up != rup:
+                what = ("consumer-fault:delivered-differs", _clip(up), _clip(rup),
+                        "when the layer above fails on its call #%d the split stream (cuts %s in %s) hands %d items upward, "
+                        "the one-read stream %d" % (fault, cuts[:6], where[:6], len(up), len(rup)))
+            elif exc is None and final["rest"] != rrest:
+                what = ("consumer-fault:residual-differs", final["rest"], rrest,
+                        "buffer left behind after a consumer fault differs from the one-read run")
+            if what:
+                ctx.fail("%s:%s" % (st.target, what[0]), case, what[1], what[2], what[3])
+            continue
         if kind == "whole":
             base = (up, final["rest"])
             st.base = base
@@ -1165,9 +1276,30 @@ def run(ctx):
         g["off"] = len(lines)
         for (w, cuts, _sends, _initial) in g["members"]:
             lines += stream_lines(w[2]) + [model_line(w[2], cuts + [w[2].probe_at])]
-    answers = ctx.lean(lines)           # one driver process for the whole run
-    for path, spec, st, cases, off, cnt in work:
-        evaluate(ctx, path, spec, st, cases, answers[off:off + cnt])
+    # one model-driver process for the whole run, working while the real objects are driven
+    import threading
+    box = {}
+
+    def model():
+        try:
+            box["answers"] = ctx.lean(lines)
+        except BaseException as e:      # re-raised in the main thread
+            box["error"] = e
+
+    th = threading.Thread(target=model)
+    th.start()
+    try:
+        reals = [real_runs(st, cases) for (_p, _s, st, cases, _o, _c) in work]
+        for g in groups:
+            g["results"] = None if HANGS.get(g["target"], 0) >= 3 else run_multi(
+                [(w[2], cuts + [w[2].probe_at], sends, initial) for (w, cuts, sends, initial) in g["members"]], g["order"])
+    finally:
+        th.join()
+    if "error" in box:
+        raise box["error"]
+    answers = box["answers"]
+    for (path, spec, st, cases, off, cnt), real in zip(work, reals):
+        evaluate(ctx, path, spec, st, cases, answers[off:off + cnt], real)
     for g in groups:
         evaluate_multi(ctx, g, answers)
     large_phase(ctx, rng.fork("large"))
@@ -1203,11 +1335,11 @@ def multi_groups(ctx, work, rng):
 
 def evaluate_multi(ctx, g, answers):
     members = g["members"]
-    if HANGS.get(g["target"], 0) >= 3 and ctx.failures:
+    if g["results"] is None:
         return
     if any(not hasattr(w[2], "base") for (w, _c, _s, _i) in members):
         return                                      # the single-connection reference already failed
-    results = run_multi([(w[2], cuts + [w[2].probe_at], sends, initial) for (w, cuts, sends, initial) in members], g["order"])
+    results = g["results"]
     case = {"target": g["target"], "order": g["order"],
             "members": [{"rng_path": list(w[0]), "spec": _public(w[1]), "cuts": cuts,
                          "sends": {str(k): v for k, v in sorted((sends or {}).items())} if sends is not None else None,
@@ -1341,6 +1473,13 @@ def replay(ctx, failure):
     spec = dict(case["spec"], plan=None)
     st = build(ctx.seed, tuple(case["rng_path"]), spec)
     n = st.probe_at
+    if case.get("fault") is not None:
+        k = case["fault"]
+        rtrace, rup = run_real(st, [], fault=k)
+        trace, up = run_real(st, read_cuts(st, case.get("kind"), case["cuts"], case), fault=k)
+        exc = next((ob["exc"] for ob in trace if ob["exc"]), None)
+        rexc = next((ob["exc"] for ob in rtrace if ob["exc"]), None)
+        return bool(exc != rexc or up != rup or (exc is None and trace[-1]["rest"] != rtrace[-1]["rest"]))
     base, up0 = run_real(st, [])
     if case["cuts"] is None:
         return bool(any(ob["exc"] for ob in base) or len(up0) != expected_up(st))
@@ -1351,7 +1490,7 @@ def replay(ctx, failure):
 def shrink(ctx, failure):
     """Fewest cuts that still fail on the real code."""
     case = failure["case"]
-    if "members" in case or case.get("sends") or case.get("large"):
+    if "members" in case or case.get("sends") or case.get("large") or case.get("tail"):
         return failure
     cuts = list(case["cuts"] or [])
     if len(cuts) <= 1:
